@@ -1604,7 +1604,7 @@ func concStep(rng *rand.Rand, clk *int64, future bool) step {
 func concTrial(r *vlib.Run, mode string, rep int, rng *rand.Rand) {
 	r.SaveCurrent(map[string]interface{}{"mode": mode, "trial": rep})
 	nt := 2 + rng.Intn(2)
-	nops := r.N(1500, 3000)
+	nops := r.N(3000, 6000)
 	if mode == modeConc {
 		nops = r.N(400, 800)
 	}
@@ -1792,15 +1792,15 @@ func concTrial(r *vlib.Run, mode string, rep int, rng *rand.Rand) {
 func body(r *vlib.Run) {
 	if r.Race {
 		// Clocks are left alone: they are unsynchronised package variables.
-		r.ForTrials(modeRace, r.N(9, 40), func(rep int, rng *rand.Rand) { concTrial(r, modeRace, rep, rng) })
+		r.ForTrials(modeRace, r.N(12, 40), func(rep int, rng *rand.Rand) { concTrial(r, modeRace, rep, rng) })
 		return
 	}
 	useVirtualClocks()
-	r.ForTrials(modeHist, r.N(3000, 60000), func(trial int, rng *rand.Rand) { histTrial(r, trial, rng) })
-	r.ForTrials(modeLat, r.N(500, 20000), func(trial int, rng *rand.Rand) { latTrial(r, trial, rng) })
-	r.ForTrials(modeCacheLat, r.N(400, 8000), func(trial int, rng *rand.Rand) { cacheLatTrial(r, trial, rng) })
+	r.ForTrials(modeHist, r.N(20000, 300000), func(trial int, rng *rand.Rand) { histTrial(r, trial, rng) })
+	r.ForTrials(modeLat, r.N(4000, 60000), func(trial int, rng *rand.Rand) { latTrial(r, trial, rng) })
+	r.ForTrials(modeCacheLat, r.N(3000, 40000), func(trial int, rng *rand.Rand) { cacheLatTrial(r, trial, rng) })
 	useRealClocks()
-	r.ForTrials(modeConc, r.N(64, 640), func(rep int, rng *rand.Rand) { concTrial(r, modeConc, rep, rng) })
+	r.ForTrials(modeConc, r.N(96, 960), func(rep int, rng *rand.Rand) { concTrial(r, modeConc, rep, rng) })
 	// Replay of a violation found by a race worker.
 	r.ForTrials(modeRace, 0, func(rep int, rng *rand.Rand) { concTrial(r, modeRace, rep, rng) })
 }
@@ -1847,7 +1847,7 @@ func main() {
 		RaceShardsQuick: 3, RaceShardsThorough: 5,
 		RaceAnchors:  []string{"/cache/cache.go", "/metadata/metadata.go", "/latency/latency.go"},
 		RaceDeciding: true,
-		MinDistinctQuick: 1500, MinDistinctThorough: 30000,
+		MinDistinctQuick: 10000, MinDistinctThorough: 150000,
 		PostMerge: postMerge,
 		Body:      body,
 	})
